@@ -18,6 +18,9 @@ INT, STR, BOOL, FLT = ("n", "Int", ()), ("n", "String", ()), ("n", "Boolean", ()
 RV_TYPED = {
     "1": ((INT,),), '"s"': ((STR,),), "True": ((BOOL,),), "1.5": ((FLT,),), "None": ((NULL,),), "": ((NULL,),), "-1": ((INT,),),
     '1, "s"': ((INT,), (STR,)), '"s", 1': ((STR,), (INT,)), "1, 2, 3": ((INT,), (INT,), (INT,)), '1 if c else "s"': ((INT, STR),),
+    # conditional expressions with one branch of no definite literal type (only the literal branch must be covered), on either side
+    'xs[0] if c else "s"': ((STR,),), '"s" if c else xs[0]': ((STR,),), "c + 1 if c else 1.5": ((FLT,),), "[1] if c else None": ((NULL,),), "len(xs) if c else 1": ((INT,),),
+    "(c == 1) if xs else (1, 1.5)": ((INT,), (FLT,)), '1 if c else ("s" if xs else 1.5)': ((INT, STR, FLT),), "not 1": ((BOOL,),), "1, len(xs)": ((INT,), ()),
 }  # fmt: skip
 RV_QUICK2 = ["1", '"s"', "True", "None", "", '1, "s"', '"s", 1', "1.5"]
 # return values without a definite literal type: judged by "function is emitted" only (crashes belong to C01)
@@ -243,7 +246,7 @@ def run(rep: Report, tier: str, seed: int) -> None:
             infdoc_cases.append(Case(cid, src, ("inf", stmts, False, False), (), f"infdoc:{r1 or 'bare'}+{r2 or 'bare'}:{ndoc}{'N' if named else 'u'}"))
             cid += 1
     rep.rule = (
-        "inferred: one return statement under every statement context (16 contexts, depth<=%s) x 11 typed + 12 untyped return expressions; two return statements at depth<=1 over %d typed letters%s;"
+        "inferred: one return statement under every statement context (16 contexts, depth<=%s) x 20 typed (incl. conditional expressions with one untypable branch on either side, nested conditionals, tuples with an untypable item) + 12 untyped return expressions; two return statements at depth<=1 over %d typed letters%s;"
         " return statements in 2..4 clauses of one try statement (each clause: none / return / conditional return; 72 shapes) and in the branches of one if / for-else / while-else / match;"
         " functions and methods. annotated: 12 annotation terms alone and as tuple[...] of 1..3; numpydoc result sections with 0..3 entries, each named or unnamed, against 1..3 results."
         " distinct = distinct case label" % ("1 + 8 depth-2 paths" if tier == "quick" else "2 (complete)", len(RV_QUICK2) if tier == "quick" else len(RV_TYPED), "" if tier == "quick" else "; three return statements over top/if/else x 8 letters")
@@ -305,6 +308,8 @@ def run(rep: Report, tier: str, seed: int) -> None:
                 bad = None
                 for path, rv, per_pos in produced:
                     for i, atoms in enumerate(per_pos):
+                        if not atoms:
+                            continue  # a position whose value has no definite literal type
                         if i >= len(rtypes) or not covers(rtypes[i], atoms):
                             bad = (path, rv, i, atoms)
                             break
